@@ -43,7 +43,10 @@ PATHLIKE_EXTRA = [{"Path": ["a", 0]}, {"PATH.length": ["a"]}, {"b": 1, "Path": [
                   [{"c": 1, "PathName": ["a"]}], {"k": {"path2": {"path": ["a"]}}},
                   # a mapping ITEM of a list argument whose VALUE is a mapping with a path-like key (two levels down)
                   [{"file": {"path": "/tmp/x"}}, 3], [{"b": {"path": [2]}}], [{"a": {"Path.length": ["a"]}}, "x"],
-                  [{"file": {"path": ["a"], "mode": "r"}}]]
+                  [{"file": {"path": ["a"], "mode": "r"}}],
+                  # literal mappings whose keys are the PARAMETER names of callables: still literal values
+                  {"value": 3}, {"value": [1, 2]}, {"key": "a"}, {"keys": ["a"]}, {"lower": 0, "upper": 2}, {"N": 1, "keys": ["a"]},
+                  {"value": 3, "tolerance": 1}, {"value": {"value": 1}}, [{"value": 3}]]
 
 
 # COINCIDENCES: after a document has been generated, scalars and keys drawn for conditions / paths / arguments are,
